@@ -422,9 +422,15 @@ func (c *ctxConn) Read(b []byte) (n int, err error) {
 		n, err = c.conn.Read(b)
 		if err != nil {
 			if netErr, ok := err.(net.Error); ok && netErr.Timeout() && netErr.Temporary() {
+				if n > 0 {
+					// Do not discard the bytes that were read before the timeout
+					return n, nil
+				}
 				continue
 			}
-			return 0, err
+			// The bytes read together with the error (for instance the last
+			// application data before a TLS close notify) must be delivered
+			return n, err
 		}
 
 		return n, nil
